@@ -1561,6 +1561,10 @@ func (ctx drawContext) drawText(textbox *bo.TextBox, offsetX fl, textOverflow st
 	var offsetY pr.Float
 
 	metrics := textbox.TextLayout.Metrics()
+	if metrics == nil {
+		// the text engine provides no line metrics: the decorations cannot be placed
+		decoration = 0
+	}
 
 	if decoration&pr.Overline != 0 {
 		thickness := metrics.UnderlineThickness
